@@ -88,7 +88,8 @@ NsClauses(r) ==
                 <<"coarse-nullspace-size", wf /\ r.bc = (r.ag.count \div r.bs) * r.cols * r.cols>>,
                 <<"orthonormal", wf /\ r.orth <= ObsTol>>,
                 <<"reproduces-B", wf /\ r.repro <= ObsTol>>,
-                <<"smoothed=formula", wf /\ r.sashape /\ r.sadiff <= ObsTol>> >>
+                <<"smoothed=formula", wf /\ r.sashape /\ r.sadiff <= ObsTol>>,
+                <<"finite", wf /\ r.finite>> >>
 
 Clauses(r) ==
     CASE r.k = "plain" -> PlainClauses(r)
